@@ -401,3 +401,23 @@ s("C18", "nnsp-arrival-order", NS, "        D, inverted_indices = np.unique(data
 s("C18", "hdm-first-row-range", HDMF, "            mins.append(np.concatenate((reference_variable, test_variable)).min())", "            mins.append(min(reference_variable.min(), test_variable.iloc[0]))", "TNT-order")
 s("C18", "kdq-midpoint-first-row", KP, "        min_value_at_axis = np.min(data[:, axis])", "        min_value_at_axis = data[0, axis]", "TNT-order")
 b(["C18"], "hdm-shape-rows", HDMF, "        test_n = X.shape[0]", "        test_n = len(X)")
+
+# ---------------------------------------------------------------- C19
+MD = CO + "md3.py"
+s("C19", "no-waiting-flag", MD, "            self.drift_state = \"warning\"\n            self.waiting_for_oracle = True", "            self.drift_state = \"warning\"", "PAIR")
+s("C19", "flag-not-cleared", MD, "            self.oracle_data = None\n            self.waiting_for_oracle = False", "            self.oracle_data = None", ["ROLE", "PAIR"])
+s("C19", "label-count-ge", MD, "        if len(self.oracle_data) == self.oracle_data_length_required:", "        if len(self.oracle_data) >= self.oracle_data_length_required - 1:", "GRD")
+s("C19", "write-before-refusal", MD, "        if len(X) != 1:\n            raise ValueError(", "        self.last_seen = X\n        if len(X) != 1:\n            raise ValueError(", "EXC-commit")
+s("C19", "drift-level-lt", MD, "            if drift_level > drift_threshold:", "            if drift_level < drift_threshold:", "GRD")
+s("C19", "forgetting-inverted", MD, "        self.forgetting_factor = (\n            self.reference_distribution[\"len\"] - 1\n        ) / self.reference_distribution[\"len\"]", "        self.forgetting_factor = self.reference_distribution[\"len\"] / (\n            self.reference_distribution[\"len\"] + 1\n        )", "FRM")
+s("C19", "reset-keeps-density", MD, "        super().reset()\n        self.curr_margin_density = self.reference_distribution[\"md\"]", "        super().reset()", "MC")
+s("C19", "setref-conditional-density", MD, "        self.curr_margin_density = self.reference_distribution[\"md\"]\n\n    def calculate_distribution_statistics", "        if self.oracle_data is None:\n            self.curr_margin_density = self.reference_distribution[\"md\"]\n\n    def calculate_distribution_statistics", "MC")
+s("C19", "clear-state-before-column-check", MD, "        labeled_columns = list(labeled_sample.columns)", "        self.drift_state = None\n        labeled_columns = list(labeled_sample.columns)", "EXC-commit")
+s("C19", "warning-no-abs", MD, "        warning_level = np.abs(\n            self.curr_margin_density - self.reference_distribution[\"md\"]\n        )", "        warning_level = (\n            self.curr_margin_density - self.reference_distribution[\"md\"]\n        )", "GRD")
+s("C19", "recurrence-weights-swapped", MD, "            self.forgetting_factor * self.curr_margin_density\n            + (1 - self.forgetting_factor) * margin_inclusion_signal", "            (1 - self.forgetting_factor) * self.curr_margin_density\n            + self.forgetting_factor * margin_inclusion_signal", "FRM")
+s("C19", "drift-uses-md-std", MD, 'drift_threshold = self.sensitivity * self.reference_distribution["acc_std"]', 'drift_threshold = self.sensitivity * self.reference_distribution["md_std"]', "GRD")
+s("C19", "update-allowed-while-waiting", MD, "        if self.waiting_for_oracle == True:\n            raise ValueError(", "        if self.waiting_for_oracle == True and self.oracle_data is not None:\n            raise ValueError(", "TAB-protocol")
+s("C19", "new-reference-before-judging", MD, "            if drift_level > drift_threshold:\n                self.drift_state = \"drift\"\n\n            # update reference distribution\n            self.set_reference(self.oracle_data, target_name=target_column[0])", "            # update reference distribution\n            self.set_reference(self.oracle_data, target_name=target_column[0])\n            drift_threshold = self.sensitivity * self.reference_distribution[\"acc_std\"]\n            drift_level = self.reference_distribution[\"acc\"] - acc_labeled_samples\n            if drift_level > drift_threshold:\n                self.drift_state = \"drift\"", ["ORD", "GRD"])
+s("C19", "columns-count-only", MD, "        if len(labeled_columns) != len(reference_columns) or set(\n            labeled_columns\n        ) != set(reference_columns):", "        if len(labeled_columns) != len(reference_columns):", "GRD")
+b(["C19"], "warning-flip", MD, "        if warning_level > warning_threshold:", "        if warning_threshold < warning_level:")
+b(["C19"], "waiting-truthy", MD, "        if self.waiting_for_oracle != True:", "        if not (self.waiting_for_oracle == True):")
